@@ -523,3 +523,64 @@ func TestC06Reshare(t *testing.T) {
 		rec.Case(desc, true, labels...)
 	})
 }
+
+// TestC06KnownFindingReplay tries (up to 4 times: the outcome depends on where completion falls relative to a round boundary)
+// to reproduce the listed transition-time finding with its exact shape: period 1 s, one member 900 ms slow.
+func TestC06KnownFindingReplay(t *testing.T) {
+	rec := stats.Open(t, "C06")
+	desc := "replay: reshare pedersen-bls-chained n0=4 t0=3 add=1 t1=3 period=1s slow=1/900ms"
+	reproduced := false
+	for attempt := 0; attempt < 4 && !reproduced; attempt++ {
+		func() {
+			stop := Watchdog("c06replay", 150*time.Second)
+			defer stop()
+			seed := uint64(100 + attempt)
+			prev := fx.NewNet(seed, fx.Opts{Scheme: fx.SchemeNames[0], N: 4, T: 3, Period: time.Second, Catchup: time.Second, Genesis: time.Now().Add(-100 * time.Second).Unix(), BeaconID: "c06", BasePort: 32000})
+			bus := NewBus()
+			defer bus.CloseAll()
+			old, err := FastForward(bus, prev, 1, "c06", false)
+			if err != nil {
+				t.Fatal(err)
+			}
+			j, err := bus.AddNode(fx.Pair(seed, "replay-joiner", "127.0.0.1:32500", prev.Scheme), "c06", false)
+			if err != nil {
+				t.Fatal(err)
+			}
+			members := append(append([]*Node{}, old...), j)
+			var addrs []string
+			for _, m := range members {
+				addrs = append(addrs, m.Addr)
+			}
+			bus.Policy = delivery{SlowNode: 1, SlowMs: 900}.policy(seed, addrs)
+			if err := old[0].Reshare(3, 1, time.Now().Add(50*time.Second), []*pdkg.Participant{j.Part}, partsOf(old), nil); err != nil {
+				t.Fatalf("reshare: %v", err)
+			}
+			for _, m := range old[1:] {
+				if err := waitFor(3*time.Second, m.Accept); err != nil {
+					t.Fatalf("accept: %v", err)
+				}
+			}
+			if err := waitFor(3*time.Second, func() error { return j.Join(GroupTOML(prev.Group)) }); err != nil {
+				t.Fatalf("join: %v", err)
+			}
+			if err := old[0].Execute(); err != nil {
+				t.Fatalf("execute: %v", err)
+			}
+			fin := WaitFinished(members, 2, 45*time.Second)
+			if v := checkOutcome(fin, 2, partsOf(members), prev, 3, seed); v != nil {
+				if strings.Contains(v.detail, "transition time") && !strings.Contains(v.detail, ";") {
+					reproduced = true
+					rec.Violation(t, "C06/reshare-transition-time-differs", v.detail+" || case: "+desc, nil)
+				} else {
+					rec.Violation(t, v.key, v.detail+" || case: "+desc, nil)
+				}
+			}
+		}()
+	}
+	if !reproduced {
+		t.Logf("listed finding did not reproduce in 4 attempts")
+		rec.Label("known-finding-not-reproduced-this-run")
+	}
+	rec.Case(desc, true, "known-finding-replay")
+	rec.Case(desc+" (fixed replay case)", true, "known-finding-replay")
+}
